@@ -140,7 +140,6 @@ func VerifH_init() {
 	verifAssume(n >= 0 && n <= 2)
 	addrs := []resolver.Address{{Addr: verifChoose("addr0", "x", "y", "z")}, {Addr: "w"}}[:n]
 	canCreate := n > 0 && !cc.failNew
-	verifKnown("F-spin", !canCreate)
 	verifReach("before")
 	var sc balancer.ClientConnState
 	sc.ResolverState.Addresses = addrs
